@@ -180,16 +180,26 @@ impl GraphInline {
             GraphInline::LineBreak => "\n".into(),
             GraphInline::Link(url, _, link_type, inlines) => {
                 let text = inlines_to_markdown(inlines, options);
+                // wiki links are written without the configured extension
+                let wiki_url = if self.is_ref() {
+                    model::ref_url(url, "")
+                } else {
+                    url.clone()
+                };
                 if *link_type == LinkType::WikiLinkPiped {
-                    return format!("[[{}|{}]]", url, text);
+                    return format!("[[{}|{}]]", wiki_url, text);
                 }
                 if *link_type == LinkType::WikiLink {
-                    return format!("[[{}]]", url);
+                    return format!("[[{}]]", wiki_url);
                 }
                 if !self.is_ref() && text.eq_ignore_ascii_case(url) {
                     format!("<{}>", url)
                 } else if self.is_ref() {
-                    format!("[{}]({}{})", text, url, options.refs_extension)
+                    format!(
+                        "[{}]({})",
+                        text,
+                        model::ref_url(url, &options.refs_extension)
+                    )
                 } else {
                     format!("[{}]({})", text, url)
                 }
@@ -302,7 +312,7 @@ impl GraphInline {
                 if self.is_ref() {
                     let new_inlines = match *link_type {
                         LinkType::Regular => context
-                            .get_ref_title(&Key::from_file_name(url))
+                            .get_ref_title(&Key::name(url))
                             .map(|title| vec![GraphInline::Str(title)])
                             .unwrap_or(inlines.clone()),
                         LinkType::WikiLink => vec![],
@@ -382,7 +392,7 @@ impl GraphInline {
 
     fn ref_key(&self) -> Option<Key> {
         match self {
-            GraphInline::Link(url, _, _, _) => Some(Key::from_file_name(url)),
+            GraphInline::Link(url, _, _, _) => Some(Key::name(url)),
             _ => None,
         }
     }
